@@ -57,10 +57,10 @@ type WScenario struct {
 }
 
 type WGen struct {
-	Faults    bool
-	Replicas2 bool
-	ForceTwo  bool // always two replicas
-	Thorough  bool
+	Faults     bool
+	Replicas2  bool
+	ForceTwo   bool // always two replicas
+	Thorough   bool
 	ShortQuiet bool // cycle oracles only: no need to wait for convergence
 	// ReloadFault allows the "Prometheus reload fails" and "Prometheus stalled" faults. It is outside C06's list of
 	// faults (kvass does not retry a failed reload, so convergence is not promised under it)
@@ -72,7 +72,7 @@ type WGen struct {
 	ConfigFocus bool
 }
 
-var allFaults = []string{"post_lost_before", "post_lost_after", "sidecar_restart", "shard_not_ready", "shard_unreachable", "external_scale", "config_out_of_sync", "get_fail", "prom_reload_fails", "prom_stalled"}
+var allFaults = []string{"post_lost_before", "post_lost_after", "sidecar_restart", "shard_not_ready", "shard_unreachable", "external_scale", "config_out_of_sync", "get_fail", "prom_reload_fails", "prom_stalled", "pod_terminating"}
 
 // GenWorld draws a world scenario.
 func GenWorld(tp *core.Tape, g WGen) *WScenario {
